@@ -197,94 +197,7 @@ func (e *exec) outcomeAgrees() string {
 	return ""
 }
 
-// shapeKey abstracts a script into its constructor skeleton (for distinctness keys).
-func shapeKey(sc *gen.Script) string {
-	var b strings.Builder
-	var src func(s gen.Source)
-	src = func(s gen.Source) {
-		switch s := s.(type) {
-		case *gen.SrcAccount:
-			b.WriteString("a")
-		case *gen.SrcOverdraft:
-			if s.Bounded == nil {
-				b.WriteString("u")
-			} else {
-				b.WriteString("o")
-			}
-		case *gen.SrcInorder:
-			b.WriteString("{")
-			for _, c := range s.Srcs {
-				src(c)
-			}
-			b.WriteString("}")
-		case *gen.SrcAllot:
-			b.WriteString("<")
-			for _, it := range s.Items {
-				if _, ok := it.A.(*gen.AllotRemaining); ok {
-					b.WriteString("r")
-				}
-				src(it.From)
-			}
-			b.WriteString(">")
-		case *gen.SrcCapped:
-			b.WriteString("m(")
-			src(s.From)
-			b.WriteString(")")
-		}
-	}
-	var dst func(d gen.Dest)
-	kod := func(k *gen.KOD) {
-		if k.Kept {
-			b.WriteString("k")
-		} else {
-			dst(k.To)
-		}
-	}
-	dst = func(d gen.Dest) {
-		switch d := d.(type) {
-		case *gen.DstAccount:
-			b.WriteString("a")
-		case *gen.DstInorder:
-			b.WriteString("{")
-			for _, c := range d.Clauses {
-				b.WriteString("m")
-				kod(c.To)
-			}
-			b.WriteString("r")
-			kod(d.Remaining)
-			b.WriteString("}")
-		case *gen.DstAllot:
-			b.WriteString("<")
-			for _, it := range d.Items {
-				kod(it.To)
-			}
-			b.WriteString(">")
-		}
-	}
-	for _, st := range sc.Stmts {
-		switch st := st.(type) {
-		case *gen.Send:
-			if st.Sent.All {
-				b.WriteString("S*[")
-			} else {
-				b.WriteString("S[")
-			}
-			src(st.Src)
-			b.WriteString("|")
-			dst(st.Dst)
-			b.WriteString("]")
-		case *gen.Save:
-			if st.Sent.All {
-				b.WriteString("V*")
-			} else {
-				b.WriteString("V")
-			}
-		case *gen.Call:
-			b.WriteString("C")
-		}
-	}
-	return b.String()
-}
+func shapeKey(sc *gen.Script) string { return gen.ShapeKey(sc) }
 
 // tune places the fixed amounts of the sends on the supply frontier of their sources.
 func tune(r *rng.R, cs *gen.Case) {
